@@ -8,7 +8,7 @@ from proto import T
 RULE = ('random tables x grammar-derived texts with repeated licenses, the same operand sets in different orders, WITH pairs and '
         'unknown licenses (one case in ten: a table with a license whose key spells like a WITH pair next to that pair, so that two different entries render alike), each listing call (license_symbols, license_keys, primary_license_symbol, primary_license_key, '
         'unknown_license_symbols, unknown_license_keys) under every combination of unique / decompose, on the string and on the parsed '
-        'object and on an expression parsed by another Licensing in another letter case, with earlier calls on permuted expressions in the same process; Spec: the listing is computed independently from '
+        'object and on an expression parsed by another Licensing in another letter case, with earlier calls on permuted expressions in the same process; one table in three has aliases and the text names licenses by them; every listing of the string under simple=True / strict=True equals the listing of what parse returns under the same options; Spec: the listing is computed independently from '
         'the license tokens of Licensing.tokenize in text order; correspondence: every listing with the model. non-trivial = a '
         'license occurs twice or a WITH pair occurs; distinct by (table, text)')
 ASSUMPTIONS = []
@@ -57,9 +57,12 @@ class Prop(BaseProp):
     def case_random(self, rng):
         if rng.random() < 0.1:
             return self.case_collide(rng)
-        table = gen.gen_table(rng, maxn=4, allow_op=False, aliases=False)
-        keys = [k for k, _, _ in table] + ['foo', 'zq bar']
-        t = gen.gen_tree(rng, keys[:5], depth=rng.randint(1, 3), maxar=4, with_p=0.25, flags=False)
+        # one table in three has aliases, and the text then names some licenses by an alias
+        table = gen.gen_table(rng, maxn=4, allow_op=False, aliases=rng.random() < 0.33)
+        names = [k for k, _, _ in table] + [a for _, al, _ in table for a in al if a.strip() and '(' not in a and ')' not in a]
+        rng.shuffle(names)
+        keys = names[:4] + ['foo', 'zq bar']
+        t = gen.gen_tree(rng, keys, depth=rng.randint(1, 3), maxar=4, with_p=0.25, flags=False)
         text = gen.tree_text(rng, t)
         # a permuted sibling listed first (a cache keyed on ==/hash of expressions would confuse the two)
         t2 = gen.rewrite(rng, t)
@@ -140,6 +143,23 @@ class Prop(BaseProp):
                 wk = uniq(wk) if un else wk
                 if lic.license_keys(fe, unique=un) != wk:
                     return Verdict('spec', dict(case, foreign=foreign_text), 'license_keys(unique=%s) on an expression parsed elsewhere' % un, impl=lic.license_keys(fe, unique=un), model=wk)
+        # the options of a listing call are handed down to parse(): the listing of a string under simple=True / strict=True is
+        # the listing of the expression parse(text, simple=True / strict=True) returns (or the same error)
+        calls = [('license_symbols', lambda a, **kw: [impl.atom_c(x) for x in lic.license_symbols(a, unique=False, **kw)]),
+                 ('license_keys', lambda a, **kw: lic.license_keys(a, unique=False, **kw)),
+                 ('unknown_license_symbols', lambda a, **kw: [impl.atom_c(x) for x in lic.unknown_license_symbols(a, unique=False, **kw)]),
+                 ('unknown_license_keys', lambda a, **kw: lic.unknown_license_keys(a, unique=True, **kw)),
+                 ('primary_license_key', lambda a, **kw: lic.primary_license_key(a, **kw))]
+        for kw in ({'simple': True}, {'strict': True}, {'simple': True, 'strict': True}):
+            po = impl.outcome(lambda: lic.parse(text, **kw))
+            for name, fn in calls:
+                so = impl.outcome(lambda: fn(text, **kw))
+                if P.is_ok(po):
+                    wanto = impl.outcome(lambda: fn(po[1]))
+                    if so != wanto:
+                        return Verdict('spec', dict(case, options=kw), '%s(text, **options) is not %s of parse(text, **options)' % (name, name), impl=so, model=wanto)
+                elif P.is_ok(so):
+                    return Verdict('spec', dict(case, options=kw), '%s(text, **options) answers although parse(text, **options) raises' % name, impl=so, model=po[:2])
         rep = drv.call_many([r for r, _ in reqs])
         for (r, got), m in zip(reqs, rep):
             if got != m:
